@@ -1103,7 +1103,7 @@ func c27PropReduce(t vpT, c c27Case, st *c27Stats) {
 	// of a finding listed in known_findings.json (see c27KnownSig).
 	known := false
 	mismatch := func(format string, args ...any) {
-		if sig, what := c27KnownSig(q, R); sig != "" && vpKnownListed("C27", sig) {
+		if sig, what := c27KnownSig(c, q, R); sig != "" && vpKnownListed("C27", sig) {
 			if st.ev != nil {
 				st.ev.Known(sig, what)
 			}
@@ -1160,8 +1160,8 @@ func c27PropReduce(t vpT, c c27Case, st *c27Stats) {
 //                            sent to the storage (it was dropped).
 
 // rules that took part, innermost first
-func c27FiredRules(q c27Query, r c27Result) []string {
-	grouped, ranged := false, false
+func c27FiredRules(q c27Query, r c27Result, implied bool) []string {
+	grouped, ranged := implied, false
 	for _, sq := range r.Sent {
 		if len(sq.GroupBy) != format.MaxTags {
 			grouped = true
@@ -1199,11 +1199,32 @@ func c27RefReduceWhat(a, b string) (string, bool) {
 	return a, false
 }
 
-func c27KnownSig(q c27Query, r c27Result) (sig, what string) {
-	if !c27Reduced(r) {
+// "without ()" (or without labels the metric does not have) groups by every tag: the pushed-down query then carries the
+// same GroupBy as an unreduced one, so the reduction of the aggregation is implied by the query shape, not observable.
+func c27WithoutNothing(c c27Case, q c27Query) bool {
+	if q.Op == "" || !q.HasMod || !q.Without {
+		return false
+	}
+	for _, n := range q.By {
+		if c27TagID(c, n) != "" {
+			return false
+		}
+	}
+	return true
+}
+
+func c27KnownSig(c c27Case, q c27Query, r c27Result) (sig, what string) {
+	ranged := false
+	for _, sq := range r.Sent {
+		if sq.Range != 0 {
+			ranged = true
+		}
+	}
+	implied := c27WithoutNothing(c, q) && (q.Shape == 0 || q.Shape == 3 || (q.Shape == 2 && ranged))
+	if !c27Reduced(r) && !implied {
 		return "", ""
 	}
-	fired := c27FiredRules(q, r)
+	fired := c27FiredRules(q, r, implied)
 	for _, rule := range fired {
 		if rule == "count" || rule == "count_over_time" {
 			return "count-reduction", "count()/count_over_time() pushed into the storage query return the number of events, the engine counts series/points (e.g. count(m{__what__=\"countsec\"}) = 6 vs 2)"
